@@ -4,5 +4,5 @@ cd /verif
 ids=${@:-$(ls seeded)}
 for id in $ids; do
   prop=${id%%-*}
-  SKIP_SUITE=${SKIP_SUITE:-1} tools/seed_verify.sh $id $prop /verif/seeded/$id/patch.diff /verif/seeded/$id/demo.c -P ${P:-12} 2>&1 | grep -E "^RESULT|DOES-NOT|FAILED"
+  SKIP_SUITE=${SKIP_SUITE:-1} tools/seed_verify.sh $id $prop /verif/seeded/$id/patch.diff /verif/seeded/$id/demo.c -P ${P:-12} --first-violation 2>&1 | grep -E "^RESULT|DOES-NOT|FAILED"
 done
